@@ -32,7 +32,9 @@ def _ineq(name, holds, wit):
                          "suppress_warnings": "bool"}
                         for h in ("termdict", "model:PUSO", "model:PCSO") for b in ("none", "tuple:real,real", "tuple:none,real")],
              requires=["wf(self)", "lam > 0", "isint(sden(H))", "encloses(bounds, sden(H))",
-                       "wf(H) if not typeis(H, 'dict') else True", "distinct(self, H)"],
+                       "wf(H) if not typeis(H, 'dict') else True", "distinct(self, H)",
+                       # H is integer-valued, in particular at the all-(+1) spin assignment (sum of its coefficients)
+                       "int_at_origin(H, True)"],
              returns="param:self", modifies=["self"],
              ensures=[_F + " >= 0",
                       "implies(not (%s) and not warned_unsat(), %s >= lam)" % (holds, _F),
@@ -52,7 +54,7 @@ contract(M + "PCSO.add_constraint_ne_zero", props=["C03", "C16", "C19"], taint=[
                      "suppress_warnings": "bool"}
                     for h in ("termdict", "model:PUSO", "model:PCSO") for b in ("none", "tuple:real,real", "tuple:none,real")],
          requires=["wf(self)", "lam > 0", "isint(sden(H))", "encloses(bounds, sden(H))",
-                   "wf(H) if not typeis(H, 'dict') else True", "distinct(self, H)"],
+                   "wf(H) if not typeis(H, 'dict') else True", "distinct(self, H)", "int_at_origin(H, True)"],
          returns="param:self", modifies=["self"],
          ensures=[_F + " >= 0",
                   "implies(sden(H) == 0 and not warned_unsat(), %s >= lam)" % _F,
